@@ -1673,7 +1673,6 @@ func staleScan(an *analyzer) []staleT {
 		}
 		var uses []useT
 		skip := map[*ast.Ident]bool{}
-		var visit func(n ast.Node, lhs bool)
 		collect := func(e ast.Expr, lhs bool) {
 			v, path := basePath(e)
 			if v == "" {
@@ -1705,8 +1704,6 @@ func staleScan(an *analyzer) []staleT {
 				uses = append(uses, useT{v, path, e.Pos()})
 			}
 		}
-		visit = func(n ast.Node, lhs bool) {}
-		_ = visit
 		ast.Inspect(fi.decl.Body, func(n ast.Node) bool {
 			switch x := n.(type) {
 			case *ast.AssignStmt:
@@ -1769,7 +1766,7 @@ func staleScan(an *analyzer) []staleT {
 				} else {
 					// loop-carried: the variable lives across iterations of a loop that parks
 					for _, l := range loops {
-						if l.lo <= st.pos && st.pos < l.hi && l.lo <= u.pos && decl[st.v] < l.lo {
+						if l.lo <= st.pos && st.pos < l.hi && l.lo <= u.pos && u.pos < l.hi && decl[st.v] < l.lo {
 							for _, b := range blocks {
 								if l.lo <= b && b < l.hi {
 									blk = b
